@@ -124,7 +124,7 @@ Section C08.
      converts (lk: class of each level; Pv_drill: no metadata under the positional name dirN, non-empty
      legal segment text).  The levels come back as dir0, dir1, ... with the guessed value of the key text
      (the integer, the boolean, the text).  Floats/timestamps in drill levels and levels mixing classes
-     are NOT covered (the latter is refuted below).                                                   *)
+     are NOT covered by this theorem.                                                   *)
   Theorem C08_multiset_drill :
     forall (pm : list (str * kind)) (names : list str), names <> [] ->
     forall ord : list str -> list str, (forall l x, In x (ord l) <-> In x l) ->
@@ -170,12 +170,13 @@ Print Assumptions C08_placement_hive.
 Print Assumptions C08_multiset_drill.
 Print Assumptions C08_placement_drill.
 
-(* known defect (finding C08-drill-mixed-text): a drill level holding plain text AND number-looking text
-   cannot be read - computed on the closed instance of the model (no floats/timestamps) *)
-Theorem C08_drill_mixed_text_refuted : exists rows,
-  cread [] (cwrite false [s_ "k"] [rows]) = None.
-Proof. exists [([Some (VStr (s_ "a"))], 0%nat); ([Some (VStr (s_ "2"))], 1%nat)]. vm_compute. reflexivity. Qed.
-Print Assumptions C08_drill_mixed_text_refuted.
+(* repaired defect (fix: commit, was finding C08-drill-mixed-text): a drill level holding plain text AND
+   number-looking text is text as a whole and reads back as the path texts - computed on the closed
+   instance of the model (no floats/timestamps); on the model of the old code this read raised *)
+Example C08_drill_mixed_text_repaired :
+  cread [] (cwrite false [s_ "k"] [[([Some (VStr (s_ "a"))], 0%nat); ([Some (VStr (s_ "2"))], 1%nat); ([Some (VStr (s_ "2"))], 2%nat)]])
+  = Some (Drill, [([(s_ "dir0", VStr (s_ "a"))], 0%nat); ([(s_ "dir0", VStr (s_ "2"))], 1%nat); ([(s_ "dir0", VStr (s_ "2"))], 2%nat)]).
+Proof. vm_compute. reflexivity. Qed.
 
 (* the hypotheses of C08_multiset_hive are satisfiable and the conclusion is what one expects: a frame with
    a text and an int64 partition column, a NULL key, two row groups *)
